@@ -110,7 +110,15 @@ def document_level(ctx, depth):
     """whole documents with clef changes, chords and splits: the agnostic export differs from the kern export only in the pitch letters of
     notes, each converted under the clef in force (tracked on the source grid along the spine paths)"""
     import docrun
+    import gen
     cases = docrun.make_cases(ctx, 15 if depth == 'quick' else 200, profiles=('free', 'core'))
+    # clef changes inside a split: two clefs in force at the same time within one spine
+    special = [gen.clef_split_doc(ctx.rng) for _ in range(12 if depth == 'quick' else 120)]
+    gen.render_documents(ctx.driver, special)
+    sc = [docrun.Case(d) for d in special]
+    for c in sc:
+        c.import_impl()
+    cases = sc + cases
     docrun.run_option_sets(ctx, cases, [{'enc': 'akern', 'include': None, 'exclude': None}, {'enc': 'aekern', 'include': None, 'exclude': None}],
                            lambda case: [{}],
                            'the agnostic export of a document is not the kern export with the pitch letters converted under the clef in force for each note',
